@@ -306,9 +306,22 @@ def run(rep: vlib.Reporter, tier: str, seed: int) -> None:
     py_rt = set(i for i in rt_idx if recs[i].get("kf_py_roundtrip"))
     # the round-trip domain is decided in Coq on the run itself (a deciding registry lookup with two matching objects);
     # the static Python predicate is only the fallback for runs the routing model does not cover
+    # the two static planner-defect domains are decided in Coq (Model/PlanDefects.v classify_plan, related to the planner model by
+    # PlannerB_defects_sound_partial) on the exported plan; the Python predicates of harness/universe.py are only compared (counted)
+    from harness import planner_b
+    with_plan = [i for i, r in enumerate(recs) if "prepare_exc" not in r and r.get("plan")]
+    coq_cls = dict(zip(with_plan, planner_b.classify([recs[i]["plan"] for i in with_plan], rep_prefix="C02")))
+    dist["static_domain_coq"] = 0
+    dist["static_domain_python_only"] = 0
+    dist["static_domain_coq_only"] = 0
     for i, r in enumerate(recs):
         if "prepare_exc" in r:
             continue
+        coq_static = bool(coq_cls.get(i, set()) & {"C01-tfs-missing", "C01-tfs-partial-requirement"})
+        dist["static_domain_coq"] += coq_static
+        dist["static_domain_python_only"] += bool(r.get("kf_static")) and not coq_static
+        dist["static_domain_coq_only"] += coq_static and not r.get("kf_static")
+        r["kf_static"] = coq_static
         r["kf"] = bool(r.get("kf_static") or (i in amb_set if r.get("route") else r.get("kf_py_roundtrip")))
         dist["planner_kf"] += r["kf"]
 
